@@ -74,8 +74,8 @@ class Ctx(object):
         if flags is None:
             from . import sample
             flags = sample.scenario_flags(body)     # constant-carrying bools and literally assigned enum tags
-            if len(flags) > 16:
-                flags = flags[:16]
+            if len(flags) > 24:
+                flags = flags[:24]
         k = (body.key, tuple(flags or ()))
         g = self._gr.get(k)
         if g is None:
@@ -96,7 +96,7 @@ class Ctx(object):
     def graph_with(self, body, extra_flags=(), pinned=None, callhook=None):
         """CFG refined by the body's constant-carrying locals (as graph()) plus the given flags / pinned values"""
         from . import sample
-        base = [f for f in sample.scenario_flags(body)][:16]
+        base = [f for f in sample.scenario_flags(body)][:28]
         flags = list(extra_flags) + [f for f in base if f not in extra_flags]
         g = flow.Graph(body, flags, pinned=pinned, callhook=callhook)
         if len(g.nodes) > 60 * max(1, len(body.blocks)):
